@@ -163,4 +163,37 @@ def pcrApply (S : Sys V α) (c : Config α) (b : V) : Option (Result V α) := pc
 
 def pcrCorrect (S : Sys V α) (c : Config α) (x0 b : V) : Option (Result V α) := pcrIntern S c x0 (resid S b x0)
 
+/-! ### PMR (kernel/solver/pmr.hpp) -/
+
+def pmrLoop (S : Sys V α) (c : Config α) :
+    Nat → V → V → V → State α → Nat → List α → Option (Result V α)
+  | 0, x, _, _, st, _, hist => some ⟨.undefined, x, st, hist⟩
+  | fuel + 1, x, r, s, st, calls, hist =>
+    let q := S.Fd (S.A s)
+    match S.prec calls q with
+    | none => some ⟨.aborted, x, st, hist⟩
+    | some z =>
+      let zq := S.ops.dot z q
+      if zq = 0 then none else
+      let alpha := S.ops.dot q s / zq
+      let x' := S.ops.axpy x s alpha
+      let r' := S.ops.axpy r q (-alpha)
+      let d := S.nrm r'
+      let (status, st') := setNewDefect c st true d
+      let hist' := pushHist c st d hist
+      if status ≠ .progress then some ⟨status, x', st', hist'⟩
+      else pmrLoop S c fuel x' r' (S.ops.axpy s z (-alpha)) st' (calls + 1) hist'
+
+def pmrIntern (S : Sys V α) (c : Config α) (x r : V) : Option (Result V α) :=
+  let d0 := S.nrm r
+  let (status, st) := setInitialDefect c true d0
+  if status ≠ .progress then some ⟨status, x, st, [d0]⟩ else
+  match S.prec 0 r with
+  | none => some ⟨.aborted, x, st, [d0]⟩
+  | some s => pmrLoop S c (fuelOf c) x r s st 1 [d0]
+
+def pmrApply (S : Sys V α) (c : Config α) (b : V) : Option (Result V α) := pmrIntern S c S.ops.zero b
+
+def pmrCorrect (S : Sys V α) (c : Config α) (x0 b : V) : Option (Result V α) := pmrIntern S c x0 (resid S b x0)
+
 end FeatModel.Solver
